@@ -384,6 +384,69 @@ func TestVerif_C20(t *testing.T) {
 		})
 		r.Eval(true, "premaxdata", side, styp, ws, a, b, over, within)
 	})
+	// (b'') the final size a RESET_STREAM states counts against MAX_DATA like data does, also when
+	// the application has stopped reading the stream before (or right after) the reset arrives
+	r.Cases("scripted-reset-final-size-vs-max-data", r.N(300, 3000), func(c *verifrt.Case) {
+		rng := c.Rng
+		side := []connSide{serverSide, clientSide}[rng.IntN(2)]
+		styp := []streamType{bidiStream, uniStream}[rng.IntN(2)]
+		ws := int64(5000)
+		wc := []int64{50, 100, 1000}[rng.IntN(3)]
+		got := rng.Int64N(min(wc, 40) + 1) // bytes of the stream that arrive before the reset
+		order := rng.IntN(3)               // 0: CloseRead then RESET_STREAM; 1: RESET_STREAM only; 2: RESET_STREAM then CloseRead
+		over := rng.IntN(3) != 0
+		c.Describe(map[string]any{"side": fmt.Sprint(side), "stream_window": ws, "conn_window": wc, "received_before_reset": got, "order": order, "beyond_max_data": over})
+		synctest.Test(t, func(t *testing.T) {
+			tc := vlpScripted(t, side, func(cfg *Config) {
+				cfg.MaxStreamReadBufferSize = ws
+				cfg.MaxConnReadBufferSize = wc
+			})
+			id := newStreamID(side.peer(), styp, 0)
+			tc.writeFrames(packetType1RTT, debugFrameStream{id: id, off: 0, data: make([]byte, got)})
+			st, err := tc.conn.AcceptStream(canceledContext())
+			if err != nil {
+				c.Violation("scripted-accept-error", "AcceptStream: %v", err)
+				return
+			}
+			if order == 0 {
+				st.CloseRead()
+				synctest.Wait()
+			}
+			maxData := wc
+			seeMax := func(fs []debugFrame) {
+				for _, f := range fs {
+					if md, ok := f.(debugFrameMaxData); ok && md.max > maxData {
+						maxData = md.max
+					}
+				}
+			}
+			seeMax(vlpDrain(tc))
+			final := maxData + 1 + rng.Int64N(ws-maxData-1)
+			if !over {
+				final = got + rng.Int64N(maxData-got+1)
+			}
+			tc.writeFrames(packetType1RTT, debugFrameResetStream{id: id, code: 5, finalSize: final})
+			if order == 2 {
+				st.CloseRead()
+				synctest.Wait()
+			}
+			frames := vlpDrain(tc)
+			code, reason, closed := vlpCloseCode(frames)
+			switch {
+			case over && !closed:
+				c.Violation("overrun-not-rejected:reset-final-size", "the largest MAX_DATA sent was %d; the peer had sent %d bytes on stream %d and its RESET_STREAM states final size %d (stream window %d): %d bytes beyond MAX_DATA, and no CONNECTION_CLOSE followed (order %d: 0 = the application had stopped reading before)", maxData, got, id, final, ws, final-maxData, order)
+			case over && code != errFlowControl:
+				c.Violation("overrun-wrong-error-code", "expected FLOW_CONTROL_ERROR, got code %v (%q)", code, reason)
+			case !over && closed:
+				c.Violation("legal-data-rejected", "RESET_STREAM with final size %d within MAX_DATA %d got CONNECTION_CLOSE %v %q", final, maxData, code, reason)
+			case over:
+				r.Event("reset_final_sizes_beyond_max_data_rejected", 1)
+			default:
+				r.Event("within_limit_scripts_accepted", 1)
+			}
+		})
+		r.Eval(true, "resetfinal", side, styp, wc, got, order, over)
+	})
 	// (c) deterministic script: asymmetric peer transport parameters, late and stale limit
 	// raises, loss and PTO (zz_verif_util_scriptedlimits_test.go)
 	nsl := r.N(1500, 40000)
@@ -407,5 +470,6 @@ func TestVerif_C20(t *testing.T) {
 	r.Require("max_updates_processed", 100)
 	r.Require("overruns_rejected_with_flow_control_error", 50)
 	r.Require("overruns_rejected_before_max_data_was_sent", 100)
+	r.Require("reset_final_sizes_beyond_max_data_rejected", 100)
 	r.Require("within_limit_scripts_accepted", 50)
 }
